@@ -49,7 +49,7 @@ async function main () {
     const oc = res.outcome || 'ok'
     out.outcomes[oc] = (out.outcomes[oc] || 0) + 1
     if (res.notes) for (const k of Object.keys(res.notes)) out.notes[k] = (out.notes[k] || 0) + res.notes[k]
-    if (out.samples.length < 3 && res.nontrivial) out.samples.push(res.sample || driver.sample(leaf, resps))
+    if (out.samples.length < 3 && res.nontrivial) out.samples.push(res.sample || (driver.sample ? driver.sample(leaf, resps) : { leaf: leaf.key || leaf }))
     for (const v of (res.violations || [])) {
       out.violationCount++
       const key = v.rule + '|' + v.sig
